@@ -13,6 +13,14 @@ def ts2ical(ts, z=True):
         'Z' if z else '')
 
 
+def ts2local(ts, tzid):
+    """wall-clock stamp of TS in zone TZID (Python's zoneinfo, not echse's)"""
+    import datetime
+    import zoneinfo
+    d = datetime.datetime.fromtimestamp(ts, zoneinfo.ZoneInfo(tzid))
+    return '%04d%02d%02dT%02d%02d%02d' % (d.year, d.month, d.day, d.hour, d.minute, d.second)
+
+
 def ts2date(ts):
     t = time.gmtime(ts)
     return '%04d%02d%02d' % (t.tm_year, t.tm_mon, t.tm_mday)
@@ -119,11 +127,15 @@ def event_text(spec, crlf=False, foldw=0):
     if spec.get('start') is not None:
         if spec.get('allday'):
             lines.append('DTSTART;VALUE=DATE:' + ts2date(spec['start']))
+        elif spec.get('tzid'):
+            lines.append('DTSTART;TZID=%s:%s' % (spec['tzid'], ts2local(spec['start'], spec['tzid'])))
         else:
             lines.append('DTSTART:' + ts2ical(spec['start'], z))
     if spec.get('dtend') is not None:
         if spec.get('allday'):
             lines.append('DTEND;VALUE=DATE:' + ts2date(spec['dtend']))
+        elif spec.get('tzid'):
+            lines.append('DTEND;TZID=%s:%s' % (spec['tzid'], ts2local(spec['dtend'], spec['tzid'])))
         else:
             lines.append('DTEND:' + ts2ical(spec['dtend'], z))
     if spec.get('duration') is not None:
@@ -142,10 +154,15 @@ def event_text(spec, crlf=False, foldw=0):
     for raw in spec.get('rawrules', []):
         lines.append(raw)
     if spec.get('rdates'):
-        if spec.get('allday'):
-            lines.append('RDATE;VALUE=DATE:' + ','.join(ts2date(d) for d in spec['rdates']))
-        else:
-            lines.append('RDATE:' + ','.join(ts2ical(d, z) for d in spec['rdates']))
+        # (an event may carry several RDATE lines: 'rdate_split' = how many of the dates go on the first)
+        k = spec.get('rdate_split') or len(spec['rdates'])
+        for part in (spec['rdates'][:k], spec['rdates'][k:]):
+            if not part:
+                continue
+            if spec.get('allday'):
+                lines.append('RDATE;VALUE=DATE:' + ','.join(ts2date(d) for d in part))
+            else:
+                lines.append('RDATE:' + ','.join(ts2ical(d, z) for d in part))
     if spec.get('exdates'):
         lines.append('EXDATE:' + ','.join(ts2ical(d, z) for d in spec['exdates']))
     for k, fld in (('location', 'LOCATION'), ('shell', 'X-ECHS-SHELL'),
